@@ -475,6 +475,8 @@ func init() {
 				}
 				var probe struct {
 					Case *c09Degen `json:"case"`
+					A    []string  `json:"a"`
+					B    []string  `json:"b"`
 					Mode string   `json:"mode"`
 					Seq  []string `json:"seq"`
 					Fam  string   `json:"fam"`
@@ -487,6 +489,31 @@ func init() {
 					outs []abs.OutEntry
 				}
 				var jobs []job
+				if probe.Mode == "subcyc" {
+					// S1 with M as subscription root (built once per worker)
+					bv, _ := wk.cache["c09subroot"].(*abs.Built)
+					if bv == nil {
+						cp := *b.Abs
+						cp.Subscription = "M"
+						var err error
+						if bv, err = abs.Build(&cp); err != nil {
+							st.Mismatch(Mismatch{What: "infra: " + err.Error()})
+							return
+						}
+						wk.cache["c09subroot"] = bv
+					}
+					text := "subscription { ...A } fragment A on M { " + strings.Join(probe.A, " ") + " } fragment B on M { " + strings.Join(probe.B, " ") + " }"
+					if *inflight != "" {
+						os.WriteFile(fmt.Sprintf("%s.%d", *inflight, wk.id), []byte(text), 0o644)
+					}
+					st.Add("vectors", 1)
+					c09Battery(bv, text, nil, nil, func(sh c09Shape, note string) {
+						state.add(sh, text, note)
+						st.Add("executions", 1)
+					})
+					st.Distinct("distinct_nontrivial", text)
+					return
+				}
 				if probe.Mode == "degen" && probe.Case != nil {
 					st.Add("vectors", 1)
 					c09DegenCase(b, probe.Case, func(sh c09Shape, note string) {
